@@ -195,7 +195,9 @@ pub fn run_mux(sc: &MuxScenario, sim: &SimRef, skip: Option<&[bool]>) -> MuxRun 
     let mut cache = PayloadCache::new();
     let mut dead = false;
     for (i, op) in sc.ops.iter().enumerate() {
-        if dead || skip.map(|s| s[i]).unwrap_or(false) {
+        // the history is over with the first write_end that succeeds (operations listed after a
+        // write_end are the caller's reaction to a write_end that FAILED: more samples, a retry)
+        if dead || ended_ok || skip.map(|s| s[i]).unwrap_or(false) {
             results.push(CallResult::NotRun);
             continue;
         }
